@@ -561,8 +561,18 @@ func (fl *Flow) linFact(l Lin, origin string, exprs ...ast.Expr) *Fact {
 }
 
 // condInto adds the facts implied by cond evaluating to val.
+// predicateExpander reads a call of a one-line boolean helper (ref.isLeaf(), sortsBefore(a, b)) as
+// the expression it returns; set when the rule context is built (specialise.go).
+var predicateExpander func(ast.Expr) ast.Expr
+
 func (fl *Flow) condInto(fs *FactSet, cond ast.Expr, val bool) {
 	cond = ast.Unparen(cond)
+	if call, isCall := cond.(*ast.CallExpr); isCall && predicateExpander != nil {
+		if ex := predicateExpander(call); ex != ast.Expr(call) {
+			fl.condInto(fs, ex, val)
+			return
+		}
+	}
 	origin := fl.m.pos(cond.Pos())
 	switch x := cond.(type) {
 	case *ast.Ident:
